@@ -28,6 +28,11 @@ func runC02(c *Ctx) {
 	if c.Unix() {
 		r01_2(c, "R02.6")
 	}
+	// sizes compared by the differ are only meaningful if every non-directory
+	// carries its real size on both walks, link members included (shared with
+	// C01/C09/C17)
+	c.R.Rule("R02.7", "the stat of every non-directory carries its on-disk size, recorded after the inode bookkeeping")
+	statSizeAlways(c, "R02.7")
 }
 
 // identity fields: all exported fields of types.Stat minus these, with reason.
